@@ -156,6 +156,10 @@ def build():
     a(("li-h2-noprint-then-p", "<ul><li><h2><span class=\"noprint\">S</span></h2><p>para</p></li></ul>\n"))
     a(("li-h2-empty-then-p", "<ul><li><h2></h2><p>para</p></li></ul>\n"))
     a(("same-indent-lines-twice", "intro\n\nalpha\n: same\nbeta\n: same\ngamma\n\nend\n"))
+    # attribute names that are not all lower case (clean_vlist adds the lower-case twin while walking the attributes)
+    a(("attr-case-table", "{| Class=\"wikitable\" ID=x\n|- BGCOLOR=red\n| colSpan=2 ROWSPAN=1 | a\n|-\n| b || c\n|}\n"))
+    a(("attr-case-div", "<div CLASS=\"noprint\" Style=\"color:red\">x</div><span Id=\"y\" TITLE=t>s</span>\n"))
+    a(("attr-case-two-tables", "{|\n| Align=left | a\n|}\n\n{|\n| ROWSPAN=\"2\" | b\n| c\n|-\n| d\n|}\n"))
     return T
 
 
